@@ -6,6 +6,8 @@ Partial by design (DESIGN §4 C05): the end-to-end claim is only *searched*; pro
      (a) vtable_dispatch_eq_mro_lookup   compute_vtable / specialize_parent_vtable vs Python's MRO lookup
      (b) forRange_visits_partial (+ not_forRange_visits … with the F12 witnesses)   ForRange vs range()
      (d) checkBlock_sound                 the verified error-edge checker
+     (e) isMethodFinal_sound              ClassIR.is_method_final over the transitive subclass closure
+     (f) forZip_takes_what_zip_takes      ForZip's exit-test order vs zip()'s left-to-right pulls
 2. Ties, re-checked on every run:
      (a) vt.py    generated hierarchies through the real front half: ClassIR tables vs the model, entry by entry;
                   the real tables' dispatch vs CPython's own lookup
@@ -16,7 +18,13 @@ Partial by design (DESIGN §4 C05): the end-to-end claim is only *searched*; pro
 3. Search: prog.py — generated programs compiled at opt 0 / 3 (thorough: + multi_file, separate) and driven by the same
    script as the .py; plus fixed probes for the known difference classes;
    ops.py — a battery of one-line functions over the primitive container / str / int operations and loop forms on
-   boundary operands, compiled at opt 0 and 3.
+   boundary operands, compiled at opt 0 and 3;
+   dun.py — generated hierarchies (depth up to 5, traits) with special methods introduced at any level, every class as
+   static type × ==, !=, truthiness, `in`, str()… × instances of every subclass (is_method_final: Lean model + tie in vt.py);
+   zipb.py — zip / enumerate / comprehension loops over all pairs of operand kinds × all length combinations, with
+   the state of iterator / generator operands observed afterwards (ForZip: Lean model + tie);
+   strb.py — every str / bytes primitive over an alphabet of all ASCII characters, non-ASCII white space, case-mapping
+   specials and plane boundaries.
 A compiled ≠ CPython observation is a concrete failure of C05: KNOWN-FINDING when it matches a listed class exactly,
 VIOLATION otherwise.  A model ≠ implementation difference without such an observation: VIOLATION … no-failing-input-found.
 """
@@ -26,9 +34,10 @@ import json
 from concurrent.futures import ThreadPoolExecutor
 
 from harness.vlib.core import Ctx
-from harness.c05 import bind, edges, fr, ops, prog, vt
+from harness.c05 import bind, dun, edges, fr, ops, prog, strb, vt, zipb
 
 MODEL_FILES = ["MypyVerif/Model/VTable.lean", "MypyVerif/Model/ForRange.lean", "MypyVerif/Model/ErrEdges.lean",
+               "MypyVerif/Model/ForZip.lean", "MypyVerif/Proofs/ForZip.lean",
                "MypyVerif/Proofs/VTable.lean", "MypyVerif/Proofs/ForRange.lean", "MypyVerif/Proofs/ErrEdges.lean",
                "MypyVerif/Model/PyBind.lean", "MypyVerif/Model/ArgMap.lean"]
 
@@ -60,7 +69,8 @@ def main(ctx: Ctx) -> None:
     with ThreadPoolExecutor(max_workers=6) as pool:
         # phase 1 of each part generates its inputs and submits its C compiles (≤ 6 at a time); the in-process
         # vtable part runs while they compile; phase 2 drives the compiled modules
-        parts = [fr.run(ctx, pool, col), bind.run(ctx, pool, col), ops.run(ctx, pool, col), prog.run(ctx, pool, col)]
+        parts = [fr.run(ctx, pool, col), bind.run(ctx, pool, col), ops.run(ctx, pool, col), dun.run(ctx, pool, col),
+                 zipb.run(ctx, pool, col), strb.run(ctx, pool, col), prog.run(ctx, pool, col)]
         for g in parts:
             next(g)
         vt.run(ctx, col)
@@ -86,6 +96,12 @@ def replay(ctx: Ctx, path: str) -> int:
         prog.replay(ctx, det)
     elif kind == "ops":
         ops.replay(ctx, det)
+    elif kind == "dun":
+        dun.replay(ctx, det)
+    elif kind == "zipb":
+        zipb.replay(ctx, det)
+    elif kind == "strb":
+        strb.replay(ctx, det)
     elif kind == "edges":
         print(det.get("ir", ""))
     else:
